@@ -255,3 +255,39 @@ def root_of_attributes_and_namespaces(n1: int, n2: int, n3: int, nns: int) -> bo
     total = n1 + n2 + n3
     return L(T['count_attr'].evaluate(ctx())) == [total] and L(T['root_attr'].evaluate(ctx())) == [True] * total \
         and L(T['root_ns'].evaluate(ctx())) == [True] * (4 * (nns + 1)) and L(T['attr_parent'].evaluate(ctx())) == [True] * total
+
+
+# --- added after round-2 seeded changes: the same operators with an Element or ElementTree root and every fragment setting --------------
+
+T.update(parse_all({'outer_f': 'outermost(descendant-or-self::a)', 'inner_f': 'innermost(descendant-or-self::a)',
+                    'anc_f': 'for $x in descendant-or-self::* return count($x/ancestor::*)',
+                    'ancself_f': 'for $x in descendant-or-self::* return count($x/ancestor-or-self::*)',
+                    'before_f': 'for $x in descendant-or-self::*, $y in descendant-or-self::* return $x << $y',
+                    'is_f': 'for $x in descendant-or-self::*, $y in descendant-or-self::* return $x is $y',
+                    'root_f': 'for $x in descendant-or-self::* return root($x) is root(.)',
+                    'all_f': 'descendant-or-self::*'}))
+FRAGMENTS = (None, True, False)
+
+
+@ob(budget=300, bound='4-element tree r(x(y), z): tags over {a,b}; root passed as Element or ElementTree; fragment in {None, True, False}: '
+                      'ancestor counts, <<, is, root(), outermost/innermost agree with the tree',
+    funcs=['elementpath/xpath_context.py:XPathContext.iter_ancestors', 'fn:outermost', 'fn:innermost', 'elementpath/xpath_context.py:XPathContext.__init__'])
+def order_operators_fragment(t0: str, t1: str, t2: str, t3: str, as_tree: bool, fi: int) -> bool:
+    """
+    pre: all(len(t) == 1 and 'a' <= t <= 'b' for t in (t0, t1, t2, t3)) and 0 <= fi <= 2
+    post: _
+    """
+    tags = [t0, t1, t2, t3]
+    els = _tree(tags, False, False)
+    root = ET.ElementTree(els[0]) if as_tree else els[0]
+    ctx = lambda: XPathContext(root, fragment=FRAGMENTS[fi])   # noqa: E731
+    pairs = [(i, j) for i in range(4) for j in range(4)]
+    A = [i for i in range(4) if tags[i] == 'a']
+    outer = [i for i in A if not any(a in A for a in _anc(i))]
+    inner = [i for i in A if not any(i in _anc(j) for j in A)]
+    depth = [len(_anc(i)) for i in range(4)]
+    return _idx(L(T['all_f'].evaluate(ctx())), els) == [0, 1, 2, 3] \
+        and L(T['anc_f'].evaluate(ctx())) == depth and L(T['ancself_f'].evaluate(ctx())) == [d + 1 for d in depth] \
+        and L(T['before_f'].evaluate(ctx())) == [i < j for i, j in pairs] and L(T['is_f'].evaluate(ctx())) == [i == j for i, j in pairs] \
+        and L(T['root_f'].evaluate(ctx())) == [True] * 4 \
+        and _idx(L(T['outer_f'].evaluate(ctx())), els) == outer and _idx(L(T['inner_f'].evaluate(ctx())), els) == inner
